@@ -94,3 +94,55 @@ def gen_cell(rng, kind):
 BINOPS = ['add', 'sub', 'mul', 'div', 'idiv', 'mod', 'exp', 'and', 'or', 'xor', 'eqv', 'imp', 'cmp']
 UNOPS = ['neg', 'not', 'eq', 'ne', 'lt', 'gt', 'le', 'ge', 'abs', 'sign', 'cint', 'clng', 'int']
 CONV = {'i': '%', 'l': '&', 's': '!', 'd': '#'}
+
+
+# operand kinds the compiler produces for each operand-less instruction (push order)
+def _num(*ks):
+    return [tuple(k) for k in ks]
+
+
+SIGS = {}
+for _op in ('add', 'sub', 'mul', 'div', 'exp', 'cmp'):
+    SIGS[_op] = [('i', 'i'), ('l', 'l'), ('s', 's'), ('d', 'd')]
+SIGS['add'] = SIGS['add'] + [('t', 't')]
+SIGS['cmp'] = SIGS['cmp'] + [('t', 't')]
+for _op in ('idiv', 'mod', 'and', 'or', 'xor', 'eqv', 'imp'):
+    SIGS[_op] = [('i', 'i'), ('l', 'l')]
+for _op in ('neg', 'abs', 'sign', 'int', 'cint', 'clng', 'ntos'):
+    SIGS[_op] = [('i',), ('l',), ('s',), ('d',)]
+SIGS['not'] = [('i',), ('l',)]
+for _a in 'ilsd':
+    for _b in 'ilsd':
+        if _a != _b:
+            SIGS['conv' + CONV[_a] + CONV[_b]] = [(_a,)]
+for _op in ('asc', 'lcase', 'ucase', 'ltrim', 'rtrim', 'sdbl', 'strlen'):
+    SIGS[_op] = [('t',)]
+SIGS['chr'] = [('i',)]
+SIGS['space'] = [('i',)]
+SIGS['strleft'] = [('t', 'i')]
+SIGS['strright'] = [('t', 'i')]
+SIGS['strmid'] = [('t', 'i', 'i')]
+SIGS['strfind'] = [('l', 't', 't')]
+SIGS['strrep'] = [('i', 'i'), ('i', 't')]
+
+
+def tick_instr(name, cells):
+    """the real QvmCpu.tick() on a one-instruction code section with the cells on the stack:
+    -> 'ok' | 'trap NAME' | 'host Class site'"""
+    from qvm.instrs import op_to_instr
+    import traceback
+    cpu = bare_cpu()
+    cpu.module.code = bytes([op_to_instr[name].op_code]) + bytes([op_to_instr['halt'].op_code])
+    cpu.pc = 0
+    buf = io.StringIO()
+    try:
+        with contextlib.redirect_stdout(buf):
+            for k, v in cells:
+                cpu.push(TY[k], v)
+            cpu.tick()
+    except Exception as e:  # noqa: BLE001
+        tb = traceback.extract_tb(e.__traceback__)
+        return f'host {type(e).__name__} {tb[-1].name if tb else ""}'
+    if cpu.halted and cpu.halt_reason.name == 'TRAP':
+        return 'trap ' + cpu.last_trap.name
+    return 'ok'
